@@ -217,6 +217,9 @@ def generate(rng, tier, cls):
     if rng.chance(0.05):
         spec['subclassed'] = True
 
+    if rng.chance(0.1):
+        spec['shadow'] = rng.below(50)
+
     faults = []
 
     if cls == 'write_error':
